@@ -59,7 +59,7 @@ MPow == \E p \in Pows : DoPow(p)
 MInUnits == \E u \in UnitsU : DoInUnits(u)
 MNext == MBin \/ MRBin \/ MUn \/ MPow \/ MInUnits
 Depth == TLCGet("level") <= MaxDepth
-Small == \A k \in 1..Len(Vals(acc)) : AbsI(Vals(acc)[k][1]) < 10000 /\ Vals(acc)[k][2] < 10000
+Small == \A k \in 1..Len(Vals(acc)) : AbsI(Vals(acc)[k][1]) < 1000 /\ Vals(acc)[k][2] < 1000
 
 InvWellFormed == WellFormed(acc)
 \* errors and comparisons never modify the value
